@@ -116,6 +116,13 @@ void harness(void)
     if (vsock[i].state == 2) VP_ASSERT(vsock[i].told_watch == 0, "closed descriptor: application was told to stop watching");
     if (vsock[i].state == 1) VP_ASSERT(ares_conn_from_fd(&M_ch, (ares_socket_t)i) != NULL, "open descriptor belongs to a registered connection");
   }
+  /* C09: "each failure demotes the server" BEFORE the requests on the broken connection are moved elsewhere, so that
+   * they go to a server with fewer failures instead of straight back to the one that just failed */
+  if (sib != NULL) {
+    for (k = 0; k < RQ_calls; k++)
+      if (RQ_query[k] == sib)
+        VP_ASSERT(RQ_srvfail[k] == (NSRV == 2 && f1 < f0 ? f1 : f0) + 1, "the failed server is demoted before the requests on its broken connection are requeued");
+  }
   if (sib != NULL && M_cb_count[sibtok] == 1) VP_WITNESS("sibling completed");
   if (M_reentered) VP_WITNESS("callback re-entered cancel");
   /* link-state invariant: every request in flight has exactly one deadline entry and one connection entry */
